@@ -134,6 +134,17 @@ fn main() {
             work.push((text.clone(), f));
         }
     }
+    {
+        // over-aligned vector types held by value in packed records (the record itself is not over-aligned, so only
+        // the member's own answer keeps Default / Hash / PartialEq from being derived)
+        let text = "typedef char V64 __attribute__((vector_size(64)));\ntypedef float V32 __attribute__((vector_size(32)));\ntypedef V64 V64_t;\nstruct __attribute__((packed)) PK1 { char c; V64 v; };\nstruct PK2 { PK1 inner; int z; };\n#pragma pack(push, 1)\nstruct PK3 { V64_t a; short s; };\n#pragma pack(pop)\nstruct A32 { V32 v; int k; };\nstruct __attribute__((packed)) PK4 { V64 arr[2]; char t; };\n".to_string();
+        for fl in [vec!["--with-derive-default"], vec!["--with-derive-default", "--with-derive-hash", "--with-derive-partialeq", "--with-derive-eq"],
+                   vec!["--with-derive-default", "--impl-debug", "--impl-partialeq", "--with-derive-partialeq", "--no-derive-copy"]] {
+            let mut f: Vec<String> = fl.iter().map(|x| x.to_string()).collect();
+            f.push("--no-layout-tests".into());
+            work.push((text.clone(), f));
+        }
+    }
     for _p in 0..n_prog {
         let n_units = 3 + rng.below(9) as usize;
         let prog = Program::generate(&mut rng, n_units);
